@@ -310,6 +310,9 @@ fn c02_gen(seed: u64, run: u64, thorough: bool) -> Plan {
 fn c02_gen_b(seed: u64, run: u64, thorough: bool) -> Plan {
     b_transport("C02", "b_fault_then_fair", seed, run, thorough, true, false, true)
 }
+fn c02_gen_one_way(seed: u64, run: u64, thorough: bool) -> Plan {
+    world_b_one_way("C02", "b_one_way_stream", seed, run, thorough)
+}
 fn c02_oracles(plan: &Plan) -> Vec<Box<dyn Oracle>> {
     with_states(vec![Box::new(TransportOracle::new("C02", TransportClauses { reliable_not_skipped: true, reliable_live: true, ..Default::default() }, plan))])
 }
@@ -320,7 +323,9 @@ pub fn c02() -> CheckDef {
         families: vec![Family { name: "a_fault_then_fair", world: "A", weight: 3, gen: c02_gen, oracles: c02_oracles, adversary: None, keep_workload: false, custom: None,
             what: "finite fault prefix (loss/dup/reorder/flips/blackouts/ack- or sync-targeted loss, stalls) then a fair link (<= 200 ms, stepping <= 200 ms); safety on every delivery, liveness at quiescence or after T_live = 900 s + 128 s x 80 frames" },
             Family { name: "b_fault_then_fair", world: "B", weight: 1, gen: c02_gen_b, oracles: c02_oracles, adversary: None, keep_workload: false, custom: None,
-                what: "the same through the public API: real Client/Server (1-3 clients, both directions), faults until the heal, then a fair link; at most 64 frames of payload per direction" }],
+                what: "the same through the public API: real Client/Server (1-3 clients, both directions), faults until the heal, then a fair link; at most 64 frames of payload per direction" },
+            Family { name: "b_one_way_stream", world: "B", weight: 1, gen: c02_gen_one_way, oracles: c02_oracles, adversary: None, keep_workload: false, custom: None,
+                what: "loss-free link (latency 0.1-100 ms, jitter, duplicates), one side streams Reliable packets every 3 ms .. timeout/3 for 2-4 (thorough: 2-8) silence timeouts (1.5-25 s), the other side only acknowledges, with its keepalive off, slower than the timeout, or on: nothing may end the connection, so every packet has to arrive" }],
         panic_is_violation: no_panics,
         hang_is_violation: false,
         quick_runs: 1500,
